@@ -33,7 +33,11 @@ func H_C03_classdef_before_field_values() {
 	wire := refCat(refClassDef("ZDefMix", fields), refClassDef("ZInner", []string{"n", "s"}), []byte{0x60})
 	for i := range fields {
 		if i == at {
+			// two definitions in a row (or one): definitions may be repeated in front of a value
 			wire = refCat(wire, refClassDef("ZTriple", []string{"a", "b", "c"}))
+			if vChoice("second-def", 2) == 1 {
+				wire = refCat(wire, refClassDef("ZDummy", nil))
+			}
 		}
 		wire = refCat(wire, vals[i])
 	}
